@@ -869,12 +869,7 @@ class FragmentSender(object):
 
     def callback(self, index, success):
 
-        if not success and self.retry != RetryMode.NONE:
-            # resend the fragment that timed out
-            cbk = lambda success, idx=index: self.callback(idx, success)
-            self.conn._send_type(PacketType.APP_FRAGMENT, self.fragments[index], self.retry, cbk)
-        else:
-            self.acks[index] = success
+        self.acks[index] = success
 
     @staticmethod
     def parsePayload(payload):
@@ -1050,9 +1045,9 @@ class ConnectionBase(object):
             self.seq_fragment += 1
             sender = FragmentSender(self, self.seq_fragment, retry, callback)
 
-            if retry == RetryMode.RETRY_ON_TIMEOUT:
-                retry = RetryMode.NONE
-
+            # each fragment is sent using the retry mode of the message.
+            # a fragment that is resent keeps its message sequence number,
+            # which allows the remote to detect duplicated fragments
             for frag, cbk in sender.build(payload):
                 self._send_type(PacketType.APP_FRAGMENT, frag, retry, cbk)
 
